@@ -2,6 +2,7 @@
 # usage: mutest.sh <patch.diff> <prop> [<prop>...]   — apply a seeded change to /repo, run the checks, undo it
 set -u
 PATCH=$1; shift
+[ -f "$PATCH" ] || PATCH=/tmp/mutrebased/$PATCH.diff
 cd /repo || exit 2
 if ! git diff --quiet; then echo "repo dirty"; exit 2; fi
 if ! git apply --3way "$PATCH" 2>/tmp/mutest.err; then
